@@ -34,3 +34,16 @@ Theorem C07_crit_loop_exact : forall ext crit must,
   jws_crit_loop must ext crit = Some (filter (fun m => negb (mem_label m crit)) must).
 Proof. exact crit_loop_char. Qed.
 Print Assumptions C07_crit_loop_exact.
+
+(* the boolean evaluated by the correspondence on every content the IMPLEMENTATION returns is exactly
+   ContentOK (so a code-2 verdict is a violation of the predicate of C07_sound, and nothing else is) *)
+From NCG Require Import Run.Env Proofs.Reflect.
+Theorem C07_checker_sound : forall sf ss h c, (h_fmt h = 0 \/ h_fmt h = 1)%Z ->
+  content_ok_b sf ss h c = true -> ContentOK sf ss h c.
+Proof. exact content_ok_b_sound. Qed.
+Print Assumptions C07_checker_sound.
+
+Theorem C07_checker_complete : forall sf ss h c, (h_fmt h = 0 \/ h_fmt h = 1)%Z ->
+  ContentOK sf ss h c -> content_ok_b sf ss h c = true.
+Proof. exact content_ok_b_complete. Qed.
+Print Assumptions C07_checker_complete.
